@@ -149,6 +149,8 @@ def seq_cases(ctx, rng, threads, reps, nblocks, nops, maxlen):
     if threads > 1 and not shared:
         ctx.note("the cipher type of this tree is not Sync: the shared-object workload ran on one thread")
     label = "threads:%d" % threads if shared else "history-one-object"
+    if shared:
+        ctx.stats.monitor["concurrent_calls"] += rec.value.get("n", 0)
     prev = None
     for (key, (enc, m, exp)), l in zip(flat, lines):
         rel = "first" if prev is None or prev[0] is not key else ("same-arg-other-direction" if prev[1][1] == m and prev[1][0] != enc else "same-arg-same-direction" if prev[1][1] == m else "other-arg")
